@@ -65,10 +65,20 @@ def run_batch(rep, pid, preset, cases, random_n, max_cases, batch):
     by_id = {m["id"]: m for m in metas}
     indomain = 0
     seen = set()
+    compared = disagreements = 0
     for i in infos:
         m = by_id[i["id"]]
         if i.get("count"):
             indomain += 1
+            continue
+        if "compared" in i:
+            # the contract model (Deser.tla) against the real compiler + deserializer: a disagreement is about the model
+            compared += i["compared"]
+            if i["disagreements"]:
+                disagreements += i["disagreements"]
+                if disagreements <= 3:
+                    c.log("NOTE property=%s: Deser.tla predicts %s for document %s of %s, the real deserializer did otherwise" % (
+                        pid, i["first"].get("predicted"), i["first"].get("doc"), " + ".join(d["text"] for d in m["docs"])[:200]))
             continue
         if i["id"] in seen:
             continue
@@ -90,7 +100,8 @@ def run_batch(rep, pid, preset, cases, random_n, max_cases, batch):
             rep.violation(detail, "%s for %s: %s" % (",".join(sorted(tags)), " + ".join(docs)[:300],
                                                     failing.get(i["id"]) or str([r["err"] for r in runs.get(i["id"], []) if r["err"] != '"||"'][:1])))
     rep.add(programs=len(metas) * 3, evaluations=sum(len(v) for v in runs.values()) * 3, programs_in_domain=indomain,
-            traces_validated_against_impl=n, disagreements_checked=len(seen), trace_states=st)
+            traces_validated_against_impl=n, disagreements_checked=compared, contract_model_disagreements=disagreements,
+            failing_programs_classified=len(seen), trace_states=st)
     rep.add(**{"batch_%d" % batch: {"programs": len(metas), "compile_failures": len(failing), "build_s": round(build_s, 1), "in_domain": indomain}})
     return metas, indomain
 
